@@ -4,6 +4,12 @@ Engine A: all operation histories up to a depth bound (seed grants with overlapp
 temporary / wrapper / proxy-only registrations on two regions) followed by lookups, through the real ProxiedRegion /
 Session / SessionManager cap bookkeeping and the real Seed request/response rewriting, compared with a reference
 model.  Names and URLs are catalogue constants picked by symbolic selectors (urlsplit / sha256 / LLSD-XML are C code).
+
+Besides the depth-bounded histories there are two targeted families that the depth bound does not reach:
+`temporary_consumption_order` (one name holding 4 URLs, any mix of permanent and one-shot, two requests, by-name
+lookup after each consumption) and `seed_adjacent_proxy_caps` (two proxy-only caps in every position/order of the Seed
+request array).  In the history oracle a newly minted proxy-only URL must be unlike every URL granted so far on either
+region, and a request extending it must be attributed to the very region it was registered on.
 """
 from vlib.harness import harness, shard
 from harness import proxyfix as px
@@ -66,6 +72,8 @@ def apply_op(m: Model, op, ri, ni, ui):
             if u1 != existing[0][2]:
                 return False
         else:
+            if any(c[2] == u1 for rj in range(2) for c in m.caps[rj]):
+                return False                     # a newly minted proxy-only URL is unlike every URL granted so far, on any region
             m.caps[ri].insert(0, (name, CapType.PROXY_ONLY, u1))
     else:
         if not any(c[0] == name for c in m.caps[ri]):
@@ -116,6 +124,14 @@ def check_lookups(m: Model, suffix):
                             hit = (rj, c2)
             if hit is None:
                 return False
+            if ctype == CapType.PROXY_ONLY:
+                # proxy-only URLs are minted by the proxy per (region, registration): nothing else is a prefix of the request,
+                # so the attribution is unambiguous — this very cap on this very region
+                if got.cap_name != name or got.base_url != url or got.type != CapType.PROXY_ONLY:
+                    return False
+                if not got.asset_server_cap and (got.region is None or got.region() is not region
+                                                 or got.session is None or got.session() is not px.SESSION):
+                    return False
             if hit[1][1] == CapType.TEMPORARY:
                 m.caps[hit[0]].remove(hit[1])
     return True
@@ -151,7 +167,8 @@ _PRE = ["0 <= o0 < NO", "0 <= o1 < NO", "0 <= o2 < NO", "(0 <= r0) & (r0 <= 1) &
               "registration} x 2 regions (first op on region A by symmetry) x 3 names x 4 URLs (incl. prefix-related ones) then lookups with 2 suffixes: lookup by "
               "name yields the most recent grant; every granted URL + suffix resolves to a cap whose granted URL is a prefix of "
               "the request with that cap's name/type/region/session; temporary caps resolve exactly once; a proxy-only cap "
-              "registered twice keeps its URL", covers=COVERS)
+              "registered twice keeps its URL, a newly minted proxy-only URL differs from every URL granted so far on either "
+              "region (same name on two regions -> two URLs) and resolves to exactly its own cap and region", covers=COVERS)
 def cap_histories(o0: int, r0: int, n0: int, u0: int, o1: int, r1: int, n1: int, u1: int, o2: int, r2: int, n2: int, u2: int,
                   sfx: int) -> bool:
     reset_caps()
@@ -171,7 +188,8 @@ _ON = ["grant", "temp", "proxy", "wrap"]
 
 @harness(pre=["0 <= o0 < NO", "0 <= o1 < NO", "r0 == 0", "(0 <= r1) & (r1 <= 1)", "(0 <= n0) & (n0 <= 2) & (0 <= n1) & (n1 <= 2)",
               "(0 <= u0) & (u0 <= 3) & (0 <= u1) & (u1 <= 3)", "0 <= sfx <= 1"], post="_", timeout=400,
-         note="all 2-operation histories (quick tier; same oracle as cap_histories)", covers=COVERS)
+         note="all 2-operation histories (quick tier; same oracle as cap_histories, incl. proxy-only URL uniqueness across "
+              "the two regions of the session and attribution of each proxy-only URL to its own region)", covers=COVERS)
 def cap_histories2(o0: int, r0: int, n0: int, u0: int, o1: int, r1: int, n1: int, u1: int, sfx: int) -> bool:
     reset_caps()
     m = Model()
@@ -247,9 +265,149 @@ def seed_rewriting(req_mask: int, grant_mask: int, pre_proxy: int) -> bool:
     return set(shown) == set(granted) | ({"MyProxyCap"} if "MyProxyCap" in wanted else set())
 
 
+# (definition order is scheduling order: the two Seed obligations pump real HTTP flows and run longest, so they come
+# before the short one-shot-consumption shards)
+# ---- several proxy-only caps in one Seed request -------------------------------------------------------------------
+PNAMES = ["Foo", "ProxyCapA", "ProxyCapB"]
+PORDERS = [(0, 1, 2), (0, 2, 1), (1, 0, 2), (1, 2, 0), (2, 0, 1), (2, 1, 0)]
+
+
+@harness(pre=["0 <= order <= 5", "0 <= req_mask <= 7", "1 <= reg_mask <= 3"], post="_", timeout=400,
+         note="Seed rewriting with up to two proxy-only caps through the real request/response handlers: every ordering of "
+              "{Foo, ProxyCapA, ProxyCapB} in the request array (proxy-only names adjacent in either order, separated, "
+              "leading, trailing) x every subset requested x which of the two are registered proxy-only on the region "
+              "(an unregistered one is an ordinary cap the simulator grants): the upstream request is the viewer's request "
+              "minus exactly the registered proxy-only names (order kept), the rewritten response keeps every "
+              "simulator-granted cap and presents the proxy's URL of every requested registered proxy-only cap, and each of "
+              "those URLs resolves to that cap on that region", covers=COVERS)
+def seed_adjacent_proxy_caps(order: int, req_mask: int, reg_mask: int) -> bool:
+    reset_caps()
+    ctx, mgr = hx.fresh_http()
+    region = px.REGION
+    order, req_mask, reg_mask = small(order, 0, 5), small(req_mask, 0, 7), small(reg_mask, 1, 3)
+    proxy_urls = {}
+    for bit, n in ((1, "ProxyCapA"), (2, "ProxyCapB")):
+        if reg_mask & bit:
+            proxy_urls[n] = region.register_proxy_cap(n)
+    if len(set(proxy_urls.values())) != len(proxy_urls):
+        return False
+    wanted = [PNAMES[i] for i in PORDERS[order] if req_mask & (1 << i)]
+    flow = hx.make_flow(url_host="test.localhost", port=4, path="/foo", content=hx.xml(wanted))
+    hx.pump(mgr, ctx, "request", flow)
+    back = hx.drain(ctx.to_proxy_queue)
+    if len(back) != 1:
+        return False
+    from mitmproxy.http import HTTPFlow
+    from mitmproxy.test import tutils
+    f2 = HTTPFlow.from_state(back[0][2])
+    upstream = llsd.parse_xml(f2.request.content)
+    if upstream != [n for n in wanted if n not in proxy_urls]:
+        return False
+    # the simulator grants everything it was asked for (it only knows what it was asked for)
+    granted = {n: f"https://sim.example/granted/{n}" for n in upstream}
+    f2.response = tutils.tresp(content=hx.xml(granted), status_code=200)
+    hx.pump(mgr, ctx, "response", f2)
+    back = hx.drain(ctx.to_proxy_queue)
+    if len(back) != 1:
+        return False
+    shown = llsd.parse_xml(HTTPFlow.from_state(back[0][2]).response.content)
+    expect = dict(granted)
+    for n in wanted:
+        if n in proxy_urls:
+            expect[n] = proxy_urls[n]
+    if shown != expect:
+        return False
+    for n, u in proxy_urls.items():
+        got = px.SM.resolve_cap(u + "/req")
+        if not got or got.cap_name != n or got.type != CapType.PROXY_ONLY or got.region is None or got.region() is not region:
+            return False
+    return all(region.cap_urls.get(n) == u for n, u in granted.items())
+
+
+# ---- one name holding several URLs, some of them one-shot: what by-name lookup yields after each consumption ------
+TNAME = "FooUploader"
+TURLS = ["https://sim.example/up/a", "https://other.example/up", "https://sim.example/up/ab", "https://sim.example/up/zz"]
+T_OTHER = "https://elsewhere.example/up/other"
+
+
+def name_lookup_is(region, entries) -> bool:
+    """entries: what the model holds under TNAME on `region`, most recently granted first, as (type, url)"""
+    if not entries:
+        return TNAME not in region.caps and TNAME not in region.cap_urls
+    return region.caps[TNAME] == entries[0] and region.cap_urls[TNAME] == entries[0][1]
+
+
+def request_and_consume(entries, region, url) -> bool:
+    """one request extending `url`; the model consumes the one-shot entry the proxy attributed the request to"""
+    req = url + "/x?y=1"
+    got = px.SM.resolve_cap(req)
+    cands = [e for e in entries if req.startswith(e[1])]
+    if not got:                                  # (SessionManager.resolve_cap answers an empty, falsy CapData)
+        return not cands                         # a surviving grant is a prefix of the request: it has to resolve
+    hit = [e for e in cands if e == (got.type, got.base_url)]
+    if not hit or got.cap_name != TNAME or got.region is None or got.region() is not region \
+            or got.session is None or got.session() is not px.SESSION:
+        return False
+    if got.type == CapType.TEMPORARY:
+        entries.remove(hit[0])
+        again = px.SM.resolve_cap(req)           # exactly once: the consumed grant never answers again
+        if again and again.type == CapType.TEMPORARY and again.base_url == got.base_url:
+            return False
+        if again and again.type == CapType.TEMPORARY:
+            # the repeat was attributed to (and consumed) another prefix-related one-shot grant
+            hit2 = [e for e in entries if req.startswith(e[1]) and e == (again.type, again.base_url)]
+            if not hit2:
+                return False
+            entries.remove(hit2[0])
+    return True
+
+
+@harness(pre=["0 <= k <= 1", "0 <= c0 <= 3", "0 <= c1 <= 3"], post="_", timeout=400,
+         note="one cap name holding 4 URLs (granted in sequence; each one either a permanent grant or a one-shot TEMPORARY "
+              "registration: all 16 type patterns, 2 URL orders incl. a prefix-related pair) on either of two regions, the "
+              "other region holding one one-shot URL under the same name; then two requests each extending one of the 4 URLs "
+              "(all 16 pairs, incl. repeating a consumed one): every request is attributed to a surviving grant of that "
+              "name/region/session, a consumed one-shot grant never answers again, and after EACH request lookup by name "
+              "(region.caps / region.cap_urls) yields the most recently granted SURVIVING URL; the other region's one-shot "
+              "grant stays untouched and resolves once at the end", covers=COVERS)
+def temporary_consumption_order(region_b: bool, t0: bool, t1: bool, t2: bool, t3: bool, k: int, c0: int, c1: int) -> bool:
+    reset_caps()
+    k, c0, c1 = small(k, 0, 1), small(c0, 0, 3), small(c1, 0, 3)
+    ri = 1 if region_b else 0
+    region, other = REGIONS[ri], REGIONS[1 - ri]
+    other.register_cap(TNAME, T_OTHER, CapType.TEMPORARY)
+    urls = [TURLS[(j + 2 * k) % 4] for j in range(4)]
+    entries = []                                 # most recent first
+    for j, temp in enumerate((t0, t1, t2, t3)):
+        if temp:
+            region.register_cap(TNAME, urls[j], CapType.TEMPORARY)
+            entries.insert(0, (CapType.TEMPORARY, urls[j]))
+        else:
+            region.update_caps({TNAME: urls[j]})
+            entries.insert(0, (CapType.NORMAL, urls[j]))
+        if not name_lookup_is(region, entries):
+            return False
+    for c in (c0, c1):
+        if not request_and_consume(entries, region, urls[c]):
+            return False
+        if not name_lookup_is(region, entries):
+            return False
+        if not name_lookup_is(other, [(CapType.TEMPORARY, T_OTHER)]):
+            return False
+    last = px.SM.resolve_cap(T_OTHER + "/go")
+    if not last or last.cap_name != TNAME or last.region is None or last.region() is not other or last.type != CapType.TEMPORARY:
+        return False
+    return name_lookup_is(other, []) and not px.SM.resolve_cap(T_OTHER + "/go") and name_lookup_is(region, entries)
+
+
+shard(temporary_consumption_order, "c0", range(4), ["first", "second", "third", "newest"], globals())
+
+
 EVIDENCE = {
-    "bounds": "histories of 3 operations over 4 kinds x 2 regions x 4 names x 5 URLs + 3 request suffixes; seed rewriting over all "
-              "16 request subsets x 8 grant subsets",
+    "bounds": "histories of 3 operations (quick tier: 2) over 4 kinds x 2 regions x 3 names x 4 URLs + 2 request suffixes; seed "
+              "rewriting over all 16 request subsets x 8 grant subsets (one proxy-only cap) and over 6 request orders x 8 request "
+              "subsets x 3 registration subsets of two proxy-only caps; one name holding 4 URLs: 16 permanent/one-shot patterns x 2 "
+              "URL orders x 2 regions x 16 request pairs",
     "outside": "names/URLs are catalogue constants (C-level string code); two sessions (second session not modelled); longer "
                "histories",
     "assumptions": ["when several granted URLs are prefixes of a request any of them is an acceptable attribution (the "
